@@ -74,7 +74,7 @@ type c03Store struct{ m map[string][]byte }
 
 func (s *c03Store) Get(_ context.Context, k string) ([]byte, error) { return s.m[k], nil }
 func (s *c03Store) Set(_ context.Context, k string, v []byte) error { s.m[k] = v; return nil }
-func (s *c03Store) Delete(_ context.Context, k string) error       { delete(s.m, k); return nil }
+func (s *c03Store) Delete(_ context.Context, k string) error        { delete(s.m, k); return nil }
 func (s *c03Store) Batch(_ context.Context, ops ...*storage.Operation) error {
 	for _, op := range ops {
 		switch op.Type {
@@ -100,19 +100,24 @@ func (e *c03Ext) GetClient(context.Context, component.Kind, component.ID, string
 	return e.cl, nil
 }
 
-type c03Host struct{ ext map[component.ID]component.Component }
+type c03Host struct {
+	ext map[component.ID]component.Component
+}
 
 func (h c03Host) GetExtensions() map[component.ID]component.Component { return h.ext }
 
 type c03Cfg struct {
-	Name       string  `json:"name"`
-	Persistent bool    `json:"persistent"`
-	Batch      bool    `json:"batch"`
-	Retry      bool    `json:"retry"`
-	Consumers  int     `json:"consumers"`
-	WFR        bool    `json:"wait_for_result"`
-	Producers  [][]int `json:"producers"` // per producer: request sizes (ids are assigned consecutively)
-	Concurrent bool    `json:"shutdown_concurrent"`
+	Name        string  `json:"name"`
+	Persistent  bool    `json:"persistent"`
+	Batch       bool    `json:"batch"`
+	Retry       bool    `json:"retry"`
+	Consumers   int     `json:"consumers"`
+	WFR         bool    `json:"wait_for_result"`
+	Producers   [][]int `json:"producers"` // per producer: request sizes (ids are assigned consecutively)
+	Concurrent  bool    `json:"shutdown_concurrent"`
+	FreeBackend bool    `json:"free_backend"` // backend answers are enumerated exhaustively (not charged to the deviation budget)
+	BatchMin    int     `json:"batch_min"`
+	BatchMax    int     `json:"batch_max"`
 }
 
 type c03Obs struct {
@@ -151,8 +156,13 @@ func c03Body(cf *c03Cfg, o *c03Obs) func() {
 			for _, id := range ids {
 				o.attempts[id]++
 			}
-			c := vs.Choose(3) // ok, transient, permanent
-			vs.Point()        // the call takes a while: others may run
+			var c int // ok, transient, permanent
+			if cf.FreeBackend {
+				c = vs.ChooseFree(3)
+			} else {
+				c = vs.Choose(3)
+			}
+			vs.Point() // the call takes a while: others may run
 			inFlight--
 			switch c {
 			case 1:
@@ -187,6 +197,9 @@ func c03Body(cf *c03Cfg, o *c03Obs) func() {
 		}
 		if cf.Batch {
 			qc.Batch = &queuebatch.BatchConfig{FlushTimeout: time.Second, MinSize: 2, MaxSize: 3}
+			if cf.BatchMin > 0 {
+				qc.Batch.MinSize, qc.Batch.MaxSize = int64(cf.BatchMin), int64(cf.BatchMax)
+			}
 		}
 		opts := []Option{WithTimeout(TimeoutConfig{}), WithQueueBatch(qc, QueueBatchSettings[request.Request]{Encoding: c03Enc{}, Sizers: map[request.SizerType]request.Sizer[request.Request]{
 			request.SizerTypeRequests: request.RequestsSizer[request.Request]{}, request.SizerTypeItems: request.NewItemsSizer()}})}
@@ -361,6 +374,9 @@ func c03Configs(quick bool) []*c03Cfg {
 	var l []*c03Cfg
 	add := func(c c03Cfg) {
 		c.Name = fmt.Sprintf("persistent=%v,batch=%v,retry=%v,consumers=%d,wfr=%v,producers=%v,concurrent=%v", c.Persistent, c.Batch, c.Retry, c.Consumers, c.WFR, c.Producers, c.Concurrent)
+		if c.FreeBackend {
+			c.Name += fmt.Sprintf(",free-backend,batch=%d..%d", c.BatchMin, c.BatchMax)
+		}
 		l = append(l, &c)
 	}
 	for _, retry := range []bool{false, true} {
@@ -380,6 +396,10 @@ func c03Configs(quick bool) []*c03Cfg {
 	add(c03Cfg{Persistent: true, Retry: true, Consumers: 1, Producers: [][]int{{1, 2}}, Concurrent: true})
 	add(c03Cfg{Persistent: true, Retry: true, Consumers: 2, Producers: [][]int{{1}, {2}}, Concurrent: false})
 	add(c03Cfg{Persistent: true, Retry: false, Consumers: 1, Producers: [][]int{{1}, {1}}, Concurrent: true})
+	// a request split by the batcher (3 items, min=max=2): its parts finish separately, one of them possibly interrupted by
+	// shutdown; every backend answer pattern is enumerated
+	add(c03Cfg{Persistent: true, Batch: true, Retry: true, Consumers: 1, Producers: [][]int{{3}}, Concurrent: false, FreeBackend: true, BatchMin: 2, BatchMax: 2})
+	add(c03Cfg{Batch: true, Retry: true, Consumers: 1, Producers: [][]int{{3}}, Concurrent: false, FreeBackend: true, BatchMin: 2, BatchMax: 2})
 	return l
 }
 
